@@ -471,7 +471,7 @@ func TestProp(t *testing.T) {
 			}
 		}
 		rec.Count("generated-but-in-open-region(skipped)", st.skipped)
-		rec.Count("html-block-with-unclosed-<(skipped)", st.soup)
+		rec.Count("raw-html-tag-soup(skipped)", st.soup)
 	}()
 	shard, shards := run.Shard()
 
